@@ -85,7 +85,7 @@ fn main() {
                 let mut report = vp_common::Report::new(&cli, "exploration", "listener-level part of C02: cookies around the configured expiry and under other secrets against listeners started through passage::start (also after a stall), and the client address seen by services / bound into cookies behind PROXY protocol; distinct = case");
                 c14::run(&cli, &mut report).await;
                 c15::run(&cli, &mut report).await;
-                report.retain_violations(|sig| sig.contains("cookie") || sig.starts_with("service-saw-wrong-client-address"));
+                report.retain_violations(|sig| sig.contains("cookie") || sig.starts_with("service-saw-wrong-client-address") || sig.starts_with("proxy-header-honoured"));
                 report.finish()
             }
             // C08 at the listener: segmentation of the client's byte stream incl. the PROXY header
